@@ -179,9 +179,16 @@ func (b *backend) funcs() *ociregistry.Funcs {
 		DeleteManifest_: func(ctx context.Context, repo string, d ociregistry.Digest) error { return b.at("DeleteManifest") },
 		DeleteTag_:      func(ctx context.Context, repo string, tag string) error { return b.at("DeleteTag") },
 		Repositories_: func(ctx context.Context, startAfter string) ociregistry.Seq[string] {
+			if startAfter != "" {
+				// a continuation page (clients of the ".page2" carriers ask for pages of two)
+				return seqOf(b, "Repositories.page2", []string(nil))
+			}
 			return seqOf(b, "Repositories", []string{"a/b", "c/d"})
 		},
 		Tags_: func(ctx context.Context, repo, startAfter string) ociregistry.Seq[string] {
+			if startAfter != "" {
+				return seqOf(b, "Tags.page2", []string(nil))
+			}
 			return seqOf(b, "Tags", []string{"t1", "t2"})
 		},
 		Referrers_: func(ctx context.Context, repo string, d ociregistry.Digest, at string) ociregistry.Seq[ociregistry.Descriptor] {
@@ -263,7 +270,7 @@ type chain struct {
 	cleanup func()
 }
 
-func buildChain(b ociregistry.Interface, hops int, loopback, bareHead bool) (*chain, error) {
+func buildChain(b ociregistry.Interface, hops int, loopback, bareHead bool, pageSize int) (*chain, error) {
 	ch := &chain{}
 	var servers []*httptest.Server
 	var tr *http.Transport
@@ -286,9 +293,9 @@ func buildChain(b ociregistry.Interface, hops int, loopback, bareHead bool) (*ch
 		if loopback {
 			s := httptest.NewServer(h)
 			servers = append(servers, s)
-			c, err = ociclient.New(s.Listener.Addr().String(), &ociclient.Options{Insecure: true, Transport: tr, DebugID: "cl"})
+			c, err = ociclient.New(s.Listener.Addr().String(), &ociclient.Options{Insecure: true, Transport: tr, DebugID: "cl", ListPageSize: pageSize})
 		} else {
-			c, err = ociclient.New(fmt.Sprintf("hop%d.test", i+1), &ociclient.Options{Insecure: true, Transport: &inproc{h: h, bareHead: bareHead}, DebugID: "cl"})
+			c, err = ociclient.New(fmt.Sprintf("hop%d.test", i+1), &ociclient.Options{Insecure: true, Transport: &inproc{h: h, bareHead: bareHead}, DebugID: "cl", ListPageSize: pageSize})
 		}
 		if err != nil {
 			ch.cleanup()
@@ -456,6 +463,13 @@ var sites = []site{
 		return firstErr(c.Tags(ctx, repoName, ""))
 	})},
 	{"Tags.mid", "Tags", "body", "Tags.mid", direct(func(ctx context.Context, c ociregistry.Interface) error {
+		return firstErr(c.Tags(ctx, repoName, ""))
+	})},
+	// the error arrives with the second page of a paginated listing (pages of two, two items on the first)
+	{"Repositories.page2", "Repositories", "body", "Repositories.page2", direct(func(ctx context.Context, c ociregistry.Interface) error {
+		return firstErr(c.Repositories(ctx, ""))
+	})},
+	{"Tags.page2", "Tags", "body", "Tags.page2", direct(func(ctx context.Context, c ociregistry.Interface) error {
 		return firstErr(c.Tags(ctx, repoName, ""))
 	})},
 	{"Referrers", "Referrers", "body", "Referrers", direct(func(ctx context.Context, c ociregistry.Interface) error {
